@@ -46,11 +46,16 @@ import (
 
 // ---- constants of the statement ---------------------------------------------------------------
 
-const (
-	// shipped timing configuration (cmd/grogu/cmd/run.go flag defaults; signaller constructed with time.Second)
+// shipped timing configuration, read from cmd/grogu/cmd/run.go of the tree under test (flag defaults
+// of distribution-start-pct / distribution-offset-pct, polling interval passed to signaller.New);
+// the package itself cannot be linked into this binary (it is not instrumented).
+var (
 	shippedStartPct  = uint64(50)
 	shippedOffsetPct = uint64(30)
-	pollSeconds      = int64(1)
+)
+
+const (
+	pollSeconds = int64(1)
 	// promptness slack of the statement: a change is submitted within cooldown + buffer + poll seconds
 	promptBuffer = int64(3)
 
@@ -95,6 +100,7 @@ type CfgA struct {
 	Lat         []int     `json:"latency_s"`
 	Menu        []string  `json:"menu"`
 	Menu2       []string  `json:"menu_second_signal,omitempty"` // menu of every signal but the (alphabetically) first; nil = Menu
+	MaxMiss     int       `json:"max_consecutive_missing_answers"` // a signal is absent from at most this many consecutive answers
 	Horizon     int       `json:"horizon_ticks"`
 }
 
@@ -173,7 +179,7 @@ func assignedOffsetPct(val sdk.ValAddress, ts int64) int64 {
 	var b8 [8]byte
 	binary.BigEndian.PutUint64(b8[:], uint64(ts))
 	h := sha256.Sum256(append(append([]byte{}, val.Bytes()...), b8[:]...))
-	return int64(binary.BigEndian.Uint64(h[:8])%shippedOffsetPct + shippedStartPct)
+	return int64(binary.BigEndian.Uint64(h[:8])%30 + 50) // statement: send slot within 50-80 % of the interval
 }
 
 // ---- state --------------------------------------------------------------------------------------
@@ -220,6 +226,7 @@ type stateA struct {
 	ov        []kvDelta // tracked stores: difference against the background chain of the same level
 	chainHash string    // hash of the full content of the tracked stores
 	fl        []flight  // in-flight submissions, sorted by key
+	miss      map[string]int // consecutive polls at which the signal was requested and absent from the answer (immutable)
 	p         *pnode
 }
 
@@ -230,7 +237,33 @@ func (s *stateA) key() string {
 		sb.WriteString("|")
 		sb.WriteString(f.key())
 	}
+	sb.WriteString(missKey(s.miss))
 	return sb.String()
+}
+
+func missKey(m map[string]int) string {
+	var ids []string
+	for id, n := range m {
+		if n > 0 {
+			ids = append(ids, fmt.Sprintf("%s~%d", id, n))
+		}
+	}
+	sort.Strings(ids)
+	return "|miss:" + strings.Join(ids, ",")
+}
+
+// nextMiss: streaks after a poll that requested req and got the answers given.
+func nextMiss(old map[string]int, req []string, given map[string]answer) map[string]int {
+	var out map[string]int
+	for _, id := range req {
+		if given[id].Missing {
+			if out == nil {
+				out = map[string]int{}
+			}
+			out[id] = old[id] + 1
+		}
+	}
+	return out
 }
 
 func (s *stateA) pending() map[string]bool {
@@ -523,6 +556,14 @@ func (x *workerA) otherStoresHash(ctx sdk.Context) string {
 
 // ---- the two sub-steps -------------------------------------------------------------------------------
 
+type pollInfo struct {
+	req    []string          // requested signal ids, sorted
+	given  map[string]answer // answer per requested id
+	menus  [][]string
+	sizes  []int
+	chosen string
+}
+
 type chainView struct {
 	params  feedstypes.Params
 	feeds   feedstypes.CurrentFeeds
@@ -551,7 +592,10 @@ func (x *workerA) view(ctx sdk.Context, c *CfgA) chainView {
 // pollOnce runs one daemon poll on ctx (read-only) with the given choice vector and judges it.
 // It returns the emitted submission (nil if none) and the number of requested signals with the
 // sizes of their menus.
-func (x *workerA) pollOnce(ctx sdk.Context, c *CfgA, pend map[string]bool, choice []int, now int64, out *stepOut) (sub *submitter.SignalPriceSubmission, menuSizes []int, chosen string) {
+func (x *workerA) pollOnce(ctx sdk.Context, c *CfgA, pend map[string]bool, choice []int, now int64, out *stepOut) (sub *submitter.SignalPriceSubmission, pi pollInfo) {
+	var menuSizes []int
+	var chosen string
+	defer func() { pi.sizes, pi.chosen = menuSizes, chosen }()
 	ps := &priceService{c: c, choice: choice}
 	pm := &vsync.Map{}
 	for id := range pend {
@@ -572,8 +616,10 @@ func (x *workerA) pollOnce(ctx sdk.Context, c *CfgA, pend map[string]bool, choic
 		sort.Slice(sub.SignalPrices, func(i, j int) bool { return sub.SignalPrices[i].SignalID < sub.SignalPrices[j].SignalID })
 	}
 	var names []string
+	pi.req, pi.given = ps.requested, ps.given
 	for i, id := range ps.requested {
 		m := ps.menuOf(i, id)
+		pi.menus = append(pi.menus, m)
 		menuSizes = append(menuSizes, len(m))
 		k := 0
 		if i < len(choice) {
@@ -668,11 +714,12 @@ func (x *workerA) pollOnce(ctx sdk.Context, c *CfgA, pend map[string]bool, choic
 					out.saw("submit:deviation-exactly-at-threshold")
 				}
 			}
+		case submitted && a.Status == feedstypes.SIGNAL_PRICE_STATUS_UNAVAILABLE:
+			out.saw("submit:unavailable-close-to-deadline")
+			out.saw(fmt.Sprintf("submit:unavailable-%02d-s-before-deadline", old.Timestamp+f.Interval-now))
 		case submitted && slot:
 			out.saw("submit:slot-reached")
 			out.saw(fmt.Sprintf("slot-offset:%d", assignedOffsetPct(c.val().ValAddress, old.Timestamp)))
-		case submitted && a.Status == feedstypes.SIGNAL_PRICE_STATUS_UNAVAILABLE:
-			out.saw("submit:unavailable-close-to-deadline")
 		case submitted:
 			out.saw("submit:other")
 		case (statusChanged || deviated) && !ripe:
@@ -755,6 +802,7 @@ func (x *workerA) blockStep(ctx sdk.Context, c *CfgA, tick int, fl []flight, out
 		if gone != "" {
 			// the feed list changed between the decision and the delivery: the daemon decided on a list
 			// that was current (checked at the poll); not a fault of its timing rule
+			out.saw("deliver:rejected-feed-left-the-list-in-flight")
 			out.saw("deliver:rejected-feed-left-the-list-in-flight:" + res.ErrName())
 			continue
 		}
@@ -961,46 +1009,57 @@ func searchA(cfgs []*CfgA, deadline time.Time, nworkers int) []*resultA {
 						ctx := x.restore(bgs[wi][it.ci], it.s.ov)
 						pend := it.s.pending()
 						now := wall0 + int64(tick)
-						var sizes []int
+						var pi0 pollInfo
 						choice := []int{}
 						first := true
 						for {
-							var out stepOut
-							sub, ms, chosen := x.pollOnce(ctx, c, pend, choice, now, &out)
-							localPoll++
-							if first {
-								sizes = ms
-								choice = make([]int, len(ms))
-								first = false
-							}
-							for _, l := range out.labels {
-								lo[l]++
-							}
-							ev := fmt.Sprintf("t%d:poll[%s]", tick, chosen)
-							if len(out.viols) > 0 {
-								for _, v := range out.viols {
-									found = append(found, engine.FoundViolation{Violation: engine.Violation{Fingerprint: v.fp, Detail: v.detail}, Path: (&pnode{it.s.p, ev}).path(), Config: c})
-								}
-							} else if sub == nil {
-								lo["poll:no-submission"]++
-								children = append(children, &stateA{ov: it.s.ov, chainHash: it.s.chainHash, fl: it.s.fl, p: &pnode{it.s.p, ev}})
-							} else {
-								lo["poll:submission"]++
-								lo[fmt.Sprintf("poll:submission-of-%d-signals", len(sub.SignalPrices))]++
-								for _, d := range c.Lat {
-									nf := append(append([]flight(nil), it.s.fl...), flight{Prices: sub.SignalPrices, MsgTs: now, Due: tick + d})
-									sort.Slice(nf, func(i, j int) bool { return nf[i].key() < nf[j].key() })
-									if len(nf) > 1 {
-										lo["poll:second-submission-while-one-in-flight"]++
+							allowed := true
+							if !first {
+								for k, id := range pi0.req {
+									if pi0.menus[k][choice[k]] == "MISS" && it.s.miss[id] >= c.MaxMiss {
+										allowed = false
 									}
-									children = append(children, &stateA{ov: it.s.ov, chainHash: it.s.chainHash, fl: nf, p: &pnode{it.s.p, fmt.Sprintf("%s:lat%d", ev, d)}})
+								}
+							}
+							if allowed {
+								var out stepOut
+								sub, pi := x.pollOnce(ctx, c, pend, choice, now, &out)
+								localPoll++
+								if first {
+									pi0 = pi
+									choice = make([]int, len(pi.sizes))
+									first = false
+								}
+								for _, l := range out.labels {
+									lo[l]++
+								}
+								ev := fmt.Sprintf("t%d:poll[%s]", tick, pi.chosen)
+								nm := nextMiss(it.s.miss, pi.req, pi.given)
+								if len(out.viols) > 0 {
+									for _, v := range out.viols {
+										found = append(found, engine.FoundViolation{Violation: engine.Violation{Fingerprint: v.fp, Detail: v.detail}, Path: (&pnode{it.s.p, ev}).path(), Config: c})
+									}
+								} else if sub == nil {
+									lo["poll:no-submission"]++
+									children = append(children, &stateA{ov: it.s.ov, chainHash: it.s.chainHash, fl: it.s.fl, miss: nm, p: &pnode{it.s.p, ev}})
+								} else {
+									lo["poll:submission"]++
+									lo[fmt.Sprintf("poll:submission-of-%d-signals", len(sub.SignalPrices))]++
+									for _, d := range c.Lat {
+										nf := append(append([]flight(nil), it.s.fl...), flight{Prices: sub.SignalPrices, MsgTs: now, Due: tick + d})
+										sort.Slice(nf, func(i, j int) bool { return nf[i].key() < nf[j].key() })
+										if len(nf) > 1 {
+											lo["poll:second-submission-while-one-in-flight"]++
+										}
+										children = append(children, &stateA{ov: it.s.ov, chainHash: it.s.chainHash, fl: nf, miss: nm, p: &pnode{it.s.p, fmt.Sprintf("%s:lat%d", ev, d)}})
+									}
 								}
 							}
 							// next choice vector
 							k := 0
 							for k < len(choice) {
 								choice[k]++
-								if choice[k] < sizes[k] {
+								if choice[k] < pi0.sizes[k] {
 									break
 								}
 								choice[k] = 0
@@ -1032,7 +1091,7 @@ func searchA(cfgs []*CfgA, deadline time.Time, nworkers int) []*resultA {
 							}
 						} else {
 							d := x.dumpTracked(nctx)
-							ch := &stateA{ov: diffDump(d, bn), chainHash: hashDump(d), fl: rest, p: &pnode{it.s.p, ev}}
+							ch := &stateA{ov: diffDump(d, bn), chainHash: hashDump(d), fl: rest, miss: it.s.miss, p: &pnode{it.s.p, ev}}
 							if ch.chainHash[0] == '0' && ch.chainHash[1] < '4' { // deterministic 1/64 subset: harness self-check
 								localSelf++
 								if x.otherStoresHash(nctx) != bgNextOther[it.ci] {
@@ -1200,6 +1259,7 @@ func replayA(c *CfgA, path []string) (last []viol, outs []string, finalKey strin
 	defer x.w.Close()
 	ctx := c.build(x.w)
 	var fl []flight
+	var miss map[string]int
 	for _, ev := range path {
 		tick, kind, choice, lat := parseEv(ev)
 		atomic.StoreInt64(&clockA, wall0+int64(tick))
@@ -1210,13 +1270,8 @@ func replayA(c *CfgA, path []string) (last []viol, outs []string, finalKey strin
 			pend := (&stateA{fl: fl}).pending()
 			// translate the named choice into a vector over the sorted requested ids: probe first
 			var probe stepOut
-			_, _, chosen0 := x.pollOnce(ctx, c, pend, nil, wall0+int64(tick), &probe)
-			var ids []string
-			for _, kv := range strings.Split(chosen0, ",") {
-				if kv != "" {
-					ids = append(ids, strings.SplitN(kv, "=", 2)[0])
-				}
-			}
+			_, pi0 := x.pollOnce(ctx, c, pend, nil, wall0+int64(tick), &probe)
+			ids := pi0.req
 			vec := make([]int, len(ids))
 			for i, id := range ids {
 				menu := c.Menu
@@ -1229,7 +1284,8 @@ func replayA(c *CfgA, path []string) (last []viol, outs []string, finalKey strin
 					}
 				}
 			}
-			sub, _, _ := x.pollOnce(ctx, c, pend, vec, wall0+int64(tick), &out)
+			sub, pi := x.pollOnce(ctx, c, pend, vec, wall0+int64(tick), &out)
+			miss = nextMiss(miss, pi.req, pi.given)
 			if sub != nil && len(out.viols) == 0 {
 				if lat < 0 {
 					lat = c.Lat[0]
@@ -1241,6 +1297,6 @@ func replayA(c *CfgA, path []string) (last []viol, outs []string, finalKey strin
 		last = out.viols
 		outs = append(outs, strings.Join(out.labels, " "))
 	}
-	finalKey = (&stateA{chainHash: hashDump(x.dumpTracked(ctx)), fl: fl}).key()
+	finalKey = (&stateA{chainHash: hashDump(x.dumpTracked(ctx)), fl: fl, miss: miss}).key()
 	return
 }
